@@ -16,7 +16,8 @@ TOKEN_CLASSES = ("QString", "QInteger", "QFunction", "QDict", "QList", "QVariabl
 def token_classes(prog):
     mi = prog.module("aw_query.query2")
     sub = [c for c in mi.classes.values() if any(b.name == "QToken" for b in prog.bases(c))]
-    return sub
+    # an intermediate base (a class that is itself subclassed) is not a token kind
+    return [c for c in sub if not any(c in prog.bases(o) for o in mi.classes.values() if o is not c)]
 
 
 def partition_rule(prog, rep):
